@@ -409,6 +409,12 @@ class BtRun(object):
                 Blackboard.storage.pop(toks[1], None)
             elif op in ("prune", "replace", "insert"):
                 return self.edit(op, toks)
+            elif op == "mgr":
+                return self.mgr_config(toks)
+            elif op == "mtick":
+                return self.mtick(toks)
+            elif op in ("setup", "shutdown"):
+                return self.setup_shutdown(op)
             else:
                 return ["bad-op"]
         except Exception as e:  # noqa: B902
@@ -439,6 +445,121 @@ def _edit(self, op, toks):
 
 
 BtRun.edit = _edit
+
+
+class LogVisitor(py_trees.visitors.VisitorBase):
+    def __init__(self, j, full, run):
+        super().__init__(full=full)
+        self.j = j
+        self.r = run
+
+    def initialise(self):
+        self.r.mlog.append("vi%d" % self.j)
+
+    def run(self, behaviour):
+        self.r.mlog.append("vr%d:%s:%s" % (self.j, self.r.ctx.nid.get(behaviour.id, "?"), ST[behaviour.status]))
+
+    def finalise(self):
+        self.r.mlog.append("vf%d" % self.j)
+
+
+def _mgr_config(self, toks):
+    d = dict(t.split("=", 1) for t in toks[1:] if "=" in t)
+    self.mlog = []
+    self.snap = None
+    tree = self.tree
+    for j, c in enumerate(d.get("v", "")):
+        if c == "s":
+            v = py_trees.visitors.SnapshotVisitor()
+            oi, orun, of = v.initialise, v.run, v.finalise
+
+            def initialise(oi=oi, j=j):
+                self.mlog.append("vi%d" % j)
+                oi()
+
+            def run(b, orun=orun, j=j):
+                self.mlog.append("vr%d:%s:%s" % (j, self.ctx.nid.get(b.id, "?"), ST[b.status]))
+                orun(b)
+
+            def finalise(of=of, j=j):
+                self.mlog.append("vf%d" % j)
+                of()
+            v.initialise, v.run, v.finalise = initialise, run, finalise
+            self.snap = v
+        else:
+            v = LogVisitor(j, c == "f", self)
+        tree.add_visitor(v)
+    for i in range(int(d.get("pre", "0") or 0)):
+        tree.add_pre_tick_handler(lambda t, i=i: self.mlog.append("pre%d" % i))
+    for i in range(int(d.get("post", "0") or 0)):
+        tree.add_post_tick_handler(lambda t, i=i: self.mlog.append("post%d" % i))
+    return ["ok"]
+
+
+def _mtick(self, toks):
+    ctx = self.ctx
+    d = dict(t.split("=", 1) for t in toks[1:] if "=" in t)
+    ctx.outcomes, ctx.guards, CLOCK.now = tick_args(toks[1:])
+    self.mlog = []
+    # the traversal's yields are observed by an extra ordinary visitor appended for the duration of this tick
+    spy = py_trees.visitors.VisitorBase(full=False)
+    spy.run = lambda b: ctx.trace.append("Y%s:%s" % (ctx.nid.get(b.id, "?"), ST[b.status]))
+    self.tree.visitors.append(spy)
+    add = d.get("a", "")
+
+    def pre_once(t):
+        self.mlog.append("preOnce")
+        if add:
+            # a handler that registers another visitor: it must take part in this very tick
+            j = len([v for v in t.visitors if v is not spy])
+            t.visitors.insert(len(t.visitors) - 1, LogVisitor(j, add == "f", self))
+    try:
+        self.tree.tick(
+            pre_tick_handler=pre_once if (d.get("p") == "1" or add) else None,
+            post_tick_handler=(lambda t: self.mlog.append("postOnce")) if d.get("q") == "1" else None)
+    finally:
+        self.tree.visitors.remove(spy)
+
+    def pairs(m):
+        return ",".join("%s:%s" % (k, v) for k, v in sorted((ctx.nid.get(i, 0), ST[s]) for i, s in m.items()))
+    sn = self.snap
+    v = "V %s | %s | %s" % ((pairs(sn.visited), pairs(sn.previously_visited), "1" if sn.changed else "0")
+                           if sn is not None else ("?", "?", "?"))
+    return ["L " + " ".join(self.mlog), "K %d" % self.tree.count, v] + report(self.root, ctx)
+
+
+def _setup_shutdown(self, op):
+    ctx = self.ctx
+    log = []
+    for nid, b in ctx.by_id.items():
+        if not getattr(b, "_verif_su", False):
+            osu, osd = b.setup, b.shutdown
+
+            def setup(osu=osu, nid=nid, **kw):
+                log_ref[0].append("%d%s" % (nid, "" if kw == {"x": 1} else "!kw"))
+                return osu(**kw)
+
+            def shutdown(osd=osd, nid=nid):
+                log_ref[0].append(str(nid))
+                return osd()
+            b.setup, b.shutdown = setup, shutdown
+            b._verif_su = True
+    log_ref[0] = log
+    if op == "setup":
+        try:
+            self.tree.setup(x=1)
+        except RuntimeError:
+            self.dead = True
+            return ["U " + " ".join(log), "ERR RuntimeError"]
+        return ["U " + " ".join(log)] + report(self.root, ctx)
+    self.tree.shutdown()
+    return ["D " + " ".join(log)]
+
+
+log_ref = [[]]
+BtRun.mgr_config = _mgr_config
+BtRun.mtick = _mtick
+BtRun.setup_shutdown = _setup_shutdown
 
 
 # ---------------------------------------------------------------------------------------------
